@@ -1,6 +1,7 @@
 import LdkModel.Model.Codec
 import LdkModel.Proofs.Codec
 import LdkModel.Generated.MsgSchemas
+import LdkModel.Model.MsgSchemasHand
 import LdkModel.Generated.WireTypes
 /-!
   C13 — peer messages round-trip through the wire format and decoding is total.
@@ -11,6 +12,7 @@ import LdkModel.Generated.WireTypes
   check; `all_schemas_wf` is the obligation that fails when a TLV is renumbered / un-sorted / a required
   TLV gets an odd type.
 -/
+set_option maxRecDepth 100000
 namespace Ldk.C13
 open Ldk.Codec Ldk.Codec.Gen
 
@@ -82,7 +84,8 @@ theorem tlv_stream_roundtrip (tlvs : List TlvField) (vals : List (Option Val))
     fixed fields self-delimiting.  Breaks when msgs.rs renumbers / un-sorts / duplicates a TLV. -/
 theorem all_schemas_wf : ∀ s ∈ generatedSchemas, s.wf = true := by decide
 
-/-- coverage is pinned: exactly these macro-declared messages have a schema, exactly these two do not.
+/-- coverage is pinned: exactly these macro-declared messages have a schema, exactly these two do not; exactly these
+    hand-written codecs have a hand-written schema (Model/MsgSchemasHand.lean).
     Breaks (instead of silently shrinking the claim) when msgs.rs gains a new `impl_writeable_msg!`
     message or one of them starts using a field type / TLV kind the model cannot express. -/
 theorem coverage_pinned :
@@ -93,7 +96,11 @@ theorem coverage_pinned :
        "ChannelReady", "Shutdown", "UpdateFailHTLC", "UpdateFailMalformedHTLC", "UpdateFee", "UpdateFulfillHTLC",
        "PeerStorage", "PeerStorageRetrieval", "StartBatch", "UpdateAddHTLC", "ReplyShortChannelIdsEnd",
        "QueryChannelRange", "GossipTimestampFilter"] ∧
-    notCovered.map (·.1) = ["TxSignatures", "RevokeAndACK"] := by decide
+    notCovered.map (·.1) = ["TxSignatures", "RevokeAndACK"] ∧
+    Hand.handSchemas.map (·.name) = ["OpenChannel", "AcceptChannel", "OpenChannelV2", "AcceptChannelV2"] ∧
+    Hand.tailSchemas.map (·.name) = ["UnsignedChannelAnnouncement", "ChannelAnnouncement", "UnsignedChannelUpdate", "ChannelUpdate"] ∧
+    Hand.customNames = ["ErrorMessage", "WarningMessage", "Ping", "Pong"] := by
+  decide
 
 /-- the round trip, instantiated for every message schema translated from msgs.rs -/
 theorem generated_roundtrip (s : Schema) (hs : s ∈ generatedSchemas) (v : MsgVal) (hv : v.valid s = true) :
@@ -232,6 +239,144 @@ theorem field_decode_consumes_prefix (ty : FieldTy) (b : Bytes) (v : Val) (r : B
 theorem fixed_part_consumes_prefix (ts : List FieldTy) (b : Bytes) (vs : List Val) (r : Bytes)
     (h : decodeFixed ts b = .ok (vs, r)) : ∃ pre, b = pre ++ r := decodeFixed_suffix ts b vs r h
 example : decodeFixed [.uint 2, .bytes16] [0, 1, 0, 1, 7, 8] = .ok ([.nat 1, .bytes [7]], [8]) := by decide
+
+/-! ## hand-written codecs (Model/MsgSchemasHand.lean) -/
+
+/-- the hand-written schemas ARE the field layout extracted from the `impl Writeable` / `impl LengthReadable`
+    bodies of msgs.rs on this run (field order, field types, TLV types and payload types, trailing excess data,
+    low-bit check).  Breaks when one of these impls gains, drops, reorders or retypes a field. -/
+theorem hand_schemas_match_source : Hand.handLayout = handPinned := by decide
+
+/-- OpenChannel, AcceptChannel, OpenChannelV2, AcceptChannelV2 are well-formed schemas: every theorem above about
+    well-formed schemas (round trip, unknown even / odd, out of order, decode_after_fixed, …) applies to them -/
+theorem hand_schemas_wf : ∀ s ∈ Hand.handSchemas, s.wf = true := by decide
+theorem hand_schemas_plain : ∀ s ∈ Hand.handSchemas, s.plain = true := by decide
+
+theorem hand_roundtrip (s : Schema) (hs : s ∈ Hand.handSchemas) (v : MsgVal) (hv : v.valid s = true) :
+    s.decode (s.encode v) = .ok v := codec_roundtrip s v (hand_schemas_wf s hs) hv
+
+theorem hand_reencode_stable (s : Schema) (hs : s ∈ Hand.handSchemas) (b : Bytes) (v : MsgVal)
+    (h : s.decode b = .ok v) : s.decode (s.encode v) = .ok v :=
+  reencode_stable_partial s b v (hand_schemas_wf s hs) (hand_schemas_plain s hs) h
+example : Hand.schema_AcceptChannelV2.decode (Hand.schema_AcceptChannelV2.encode
+      ⟨[.bytes (List.replicate 32 1), .nat 1, .nat 2, .nat 3, .nat 4, .nat 5, .nat 6, .nat 7] ++ List.replicate 7 (.bytes (2 :: List.replicate 32 1)),
+       [some (.bytes [0, 20]), none, some .unit, none]⟩) =
+    .ok ⟨[.bytes (List.replicate 32 1), .nat 1, .nat 2, .nat 3, .nat 4, .nat 5, .nat 6, .nat 7] ++ List.replicate 7 (.bytes (2 :: List.replicate 32 1)),
+       [some (.bytes [0, 20]), none, some .unit, none]⟩ := by decide
+
+/-- the gossip messages ending in `excess_data`: fields self-delimiting, the checked flag field is a `u8` -/
+theorem tail_schemas_wf : ∀ s ∈ Hand.tailSchemas, s.wf = true := by decide
+
+theorem tail_wf_parts {s : Hand.TailSchema} (h : s.wf = true) :
+    (∀ t ∈ s.fixed, t.wf = true ∧ t.selfDelim = true) ∧ (∀ t ∈ s.fixed, t.wf = true ∧ t.plain = true) := by
+  simp only [Hand.TailSchema.wf, Bool.and_eq_true, List.all_eq_true] at h
+  exact ⟨fun t ht => ⟨(h.1 t ht).1.1, (h.1 t ht).1.2⟩, fun t ht => ⟨(h.1 t ht).1.1, (h.1 t ht).2⟩⟩
+
+/-- fields ++ excess data reads back as the same fields and the same excess data -/
+theorem tail_roundtrip (s : Hand.TailSchema) (hwf : s.wf = true) (vs : List Val) (excess : Bytes)
+    (hv : s.valid vs = true) : s.decode (s.encode vs excess) = .ok (vs, excess) := by
+  simp only [Hand.TailSchema.valid, Bool.and_eq_true] at hv
+  simp [Hand.TailSchema.decode, Hand.TailSchema.encode, decodeFixed_roundtrip _ _ _ (tail_wf_parts hwf).1 hv.1, hv.2]
+
+/-- whatever such a message decodes to re-encodes to bytes that decode to the same thing -/
+theorem tail_reencode_stable (s : Hand.TailSchema) (hwf : s.wf = true) (b : Bytes) (vs : List Val) (excess : Bytes)
+    (h : s.decode b = .ok (vs, excess)) : s.decode (s.encode vs excess) = .ok (vs, excess) := by
+  unfold Hand.TailSchema.decode at h
+  split at h
+  · cases h
+  · rename_i vs' rest hd
+    split at h
+    · rename_i hp
+      simp only [Except.ok.injEq, Prod.mk.injEq] at h
+      obtain ⟨rfl, rfl⟩ := h
+      exact tail_roundtrip s hwf _ _ (by simp [Hand.TailSchema.valid, decodeFixed_valid _ _ _ _ (tail_wf_parts hwf).2 hd, hp])
+    · cases h
+
+/-- the excess data is a suffix of the input: the fields consume a prefix and nothing else is looked at -/
+theorem tail_decode_consumes_prefix (s : Hand.TailSchema) (b : Bytes) (vs : List Val) (excess : Bytes)
+    (h : s.decode b = .ok (vs, excess)) : ∃ pre, b = pre ++ excess := by
+  unfold Hand.TailSchema.decode at h
+  split at h
+  · cases h
+  · rename_i vs' rest hd
+    split at h
+    · simp only [Except.ok.injEq, Prod.mk.injEq] at h
+      obtain ⟨rfl, rfl⟩ := h
+      exact decodeFixed_suffix _ _ _ _ hd
+    · cases h
+example : Hand.tail_UnsignedChannelUpdate.decode (List.replicate 32 9 ++ beEncode 8 5 ++ beEncode 4 7 ++ [1, 0] ++ beEncode 2 40 ++ beEncode 8 1 ++ beEncode 4 2 ++ beEncode 4 3 ++ beEncode 8 9 ++ [0xee]) =
+    .ok ([.bytes (List.replicate 32 9), .nat 5, .nat 7, .nat 1, .nat 0, .nat 40, .nat 1, .nat 2, .nat 3, .nat 9], [0xee]) := by decide
+example : Hand.tail_UnsignedChannelUpdate.decode (List.replicate 32 9 ++ beEncode 8 5 ++ beEncode 4 7 ++ [0, 0] ++ beEncode 2 40 ++ beEncode 8 1 ++ beEncode 4 2 ++ beEncode 4 3 ++ beEncode 8 9) =
+    .error .InvalidValue := by decide   -- must_be_one flag clear
+example : Hand.tail_UnsignedChannelUpdate.decode (List.replicate 32 9 ++ beEncode 8 5 ++ beEncode 4 7 ++ [0, 0]) = .error .ShortRead := by decide  -- … checked last
+
+/-! ### ErrorMessage / WarningMessage / Ping / Pong -/
+
+/-- ErrorMessage / WarningMessage: channel id ++ u16 length ++ UTF-8 data reads back as (channel id, data), whatever
+    follows the message -/
+theorem error_msg_roundtrip (cid data rest : Bytes) (hc : cid.length = 32) (hd : data.length < 2 ^ 16)
+    (hu : Hand.validUtf8 data = true) :
+    Hand.decodeErrorMsg (Hand.encodeErrorMsg cid data ++ rest) = .ok (cid, data) := by
+  have h256 : data.length < 256 ^ 2 := by omega
+  have e1 : (cid ++ (beEncode 2 data.length ++ data) ++ rest).drop 32 = beEncode 2 data.length ++ (data ++ rest) := by
+    rw [List.append_assoc, ← hc, List.drop_left' rfl]; simp [List.append_assoc]
+  have e2 : (cid ++ (beEncode 2 data.length ++ data) ++ rest).take 32 = cid := by
+    rw [List.append_assoc, ← hc, List.take_left' rfl]
+  simp only [Hand.decodeErrorMsg, Hand.encodeErrorMsg, e1, e2, readUint_encode, Nat.mod_eq_of_lt h256]
+  simp only [List.length_append, List.take_left' rfl, hu, if_true]
+  rw [if_neg (by omega), if_neg (by omega)]
+
+/-- … and whatever decodes re-encodes to bytes that decode to the same (channel id, data) -/
+theorem error_msg_reencode_stable (b cid data : Bytes) (h : Hand.decodeErrorMsg b = .ok (cid, data)) :
+    Hand.decodeErrorMsg (Hand.encodeErrorMsg cid data) = .ok (cid, data) := by
+  unfold Hand.decodeErrorMsg at h
+  split at h
+  · cases h
+  · rename_i hlen
+    split at h
+    · cases h
+    · rename_i len r hr
+      split at h
+      · cases h
+      · rename_i hlr
+        split at h
+        · rename_i hu
+          simp only [Except.ok.injEq, Prod.mk.injEq] at h
+          obtain ⟨rfl, rfl⟩ := h
+          have hl : len < 256 ^ 2 := (readUint_ok hr).2
+          have := error_msg_roundtrip (b.take 32) (r.take len) [] (by simp; omega) (by simp; omega) hu
+          simpa using this
+        · cases h
+example : Hand.decodeErrorMsg (List.replicate 32 7 ++ [0, 2, 0xc3, 0xa9]) = .ok (List.replicate 32 7, [0xc3, 0xa9]) := by decide
+example : Hand.decodeErrorMsg (List.replicate 32 7 ++ [0, 2, 0xc3, 0x28]) = .error .InvalidValue := by decide   -- invalid UTF-8
+example : Hand.decodeErrorMsg (List.replicate 32 7 ++ [0, 3, 0xed, 0xa0, 0x80]) = .error .InvalidValue := by decide   -- surrogate
+example : Hand.decodeErrorMsg (List.replicate 32 7 ++ [0, 2, 0x41]) = .error .ShortRead := by decide
+
+theorem collLen_u16 (n : Nat) (h : n < 2 ^ 16) (rest : Bytes) :
+    ∃ pad, readUint 2 (CollLen.encode n ++ rest) = .ok (n, pad ++ rest) := by
+  unfold CollLen.encode
+  split
+  · exact ⟨[], by rw [readUint_encode, Nat.mod_eq_of_lt (by omega), List.nil_append]⟩
+  · have : n = 0xffff := by omega
+    subst this
+    exact ⟨beEncode 8 0, by rw [List.append_assoc, readUint_encode]⟩
+
+/-- Ping: (ponglen, byteslen) round-trips through `ponglen ++ Vec-of-zeros`, whatever follows -/
+theorem ping_roundtrip (ponglen byteslen : Nat) (hp : ponglen < 2 ^ 16) (hb : byteslen < 2 ^ 16) (rest : Bytes) :
+    Hand.decodePing (Hand.encodePing ponglen byteslen ++ rest) = .ok (ponglen, byteslen) := by
+  obtain ⟨pad, hpad⟩ := collLen_u16 byteslen hb (List.replicate byteslen 0 ++ rest)
+  simp only [Hand.decodePing, Hand.encodePing, List.append_assoc, readUint_encode, Nat.mod_eq_of_lt (show ponglen < 256 ^ 2 by omega), hpad]
+  simp; omega
+
+/-- Pong: byteslen round-trips -/
+theorem pong_roundtrip (byteslen : Nat) (hb : byteslen < 2 ^ 16) (rest : Bytes) :
+    Hand.decodePong (Hand.encodePong byteslen ++ rest) = .ok byteslen := by
+  obtain ⟨pad, hpad⟩ := collLen_u16 byteslen hb (List.replicate byteslen 0 ++ rest)
+  simp only [Hand.decodePong, Hand.encodePong, List.append_assoc, hpad]
+  simp; omega
+example : Hand.decodePing [0, 5, 0, 2, 9, 9, 1] = .ok (5, 2) := by decide   -- padding content ignored, trailing byte not read
+example : Hand.decodePing [0, 5, 0, 3, 9, 9] = .error .ShortRead := by decide
+example : Hand.encodePing 5 2 = [0, 5, 0, 2, 0, 0] := by decide
 
 /-! ## wire level -/
 
